@@ -442,3 +442,17 @@ Proof.
   unfold completed; cbn [aborted trig current total].
   rewrite T, CT, Z.eqb_refl. reflexivity.
 Qed.
+
+(* the actor exits once: after its exit no second exit (and so no second round of
+   shutdown notifications) is possible, whatever happens in between *)
+Theorem exit_once s s1 evs s2 :
+  bev_step s Exit = Some s1 -> brun s1 evs = Some s2 -> bev_step s2 Exit = None.
+Proof.
+  intros E H. destruct (exactly_one_after_exit s s1 E) as [_ X1].
+  assert (G : exited s2 = true).
+  { clear E. revert s1 X1 H. unfold brun. induction evs as [|e evs IH]; cbn; intros s1 X1 H.
+    - inversion H; subst; auto.
+    - destruct (bev_step s1 e) as [s3|] eqn:E3; [|discriminate].
+      destruct (exited_frozen s1 e s3 X1 E3) as [X3 _]. eapply IH; eauto. }
+  cbn. rewrite G, andb_false_r. reflexivity.
+Qed.
